@@ -80,7 +80,9 @@ def symmetric_grid(part):
         for ksize in sizes:
             for key in key_patterns(ksize):
                 for mode in (MODES if alg != 'RC4' else [None]):
-                    pads = PADS if mode in ('CBC', 'ECB') else [None]
+                    # a padding method named with a stream / AEAD mode is legal: ignored or applied, but
+                    # Decrypt must invert Encrypt (one key pattern and the given-IV form are enough there)
+                    pads = PADS if mode in ('CBC', 'ECB') else [None] + (PADS if key == key_patterns(ksize)[0] and mode else [])
                     for padn in pads:
                         for n in msg_lengths(bs if bs > 1 else 16):
                             m = message(n)
@@ -137,6 +139,15 @@ def _sym_case(ce, part, alg, key, mode, padn, m, iv, aad, tl):
             ref_ct, ref_tag = R.encrypt(alg, key, mode, m, used_iv, padn, aad, tl or 16)
         except Exception as e:   # noqa  reference cannot do it (e.g. GCM with a non-AES cipher / odd nonce)
             ref_ct = None
+        alt = None
+        if ref_ct is not None and padn and mode not in ('CBC', 'ECB'):
+            try:       # the other legal reading: the padding is applied before the stream encryption
+                alt = R.encrypt(alg, key, mode, R.pad(padn, m, R.BLOCK.get(alg, 1) if R.BLOCK.get(alg, 1) > 1 else 16),
+                                used_iv, None, aad, tl or 16)
+            except Exception:   # noqa
+                alt = None
+            if alt is not None and ct == alt[0]:
+                ref_ct, ref_tag = alt
         if ref_ct is not None:
             if ct != ref_ct:
                 part.violation("ciphertext|%s|%s|%s" % (alg, mode, padn),
